@@ -200,6 +200,16 @@ def check_state(ctx, name, consts, forms, gal, rp, n_state):
                                 pass
                             hd.asm_args = dict(args)
                             outs.append(('HDiscretization.assemble_matrix-after-failed-attempt', hd.assemble_matrix().toarray()))
+                            # ... and an UPDATED coefficient on the same object (a fixed-point / Newton loop replaces an entry of
+                            # asm_args between two assemblies): the form is linear in the field, twice the field gives twice
+                            # the matrix; then the original field again
+                            f0 = args[spec['field']]
+                            hd.asm_args = dict(args, **{spec['field']: (lambda *X, _f=f0: 2.0 * _f(*X))})
+                            outs.append(('HDiscretization.assemble_matrix-after-input-update-on-same-object',
+                                         hd.assemble_matrix().toarray() / 2.0))
+                            hd.asm_args = dict(args)
+                            outs.append(('HDiscretization.assemble_matrix-after-input-restored-on-same-object',
+                                         hd.assemble_matrix().toarray()))
                         else:
                             outs.append(('HDiscretization.assemble_matrix', hd.assemble_matrix().toarray()))
             except Exception as ex:
